@@ -184,7 +184,7 @@ CHECKS["C17"] = dict(
          "`From<DockerExecCommand> for Command` and `From<PackBuildCommand> for Command`: every user-supplied string (entrypoint, platform, "
          "env names/values, bind-mount paths, command words, builder, app path, buildpack references) is an unbounded SMT string, ports are "
          "SMT integers; optional entrypoint/platform, 0..2 env pairs in both key orders and with colliding keys, 0..2 ports, 0..2 command words, "
-         "bind mounts (1 quick / <= 2 thorough) next to a reduced option set, 0..2 buildpack references of either kind. The produced argv is "
+         "one bind mount next to a reduced option set, 0..2 buildpack references of either kind. The produced argv is "
          "parsed back on the same path by reference parsers of docker's and pack's option grammars (spec/cli.py, incl. Go encoding/csv for "
          "--mount) and the solver decides that the parse equals the configuration (each pair/port/mount once, buildpacks in order, values "
          "only in value positions). Build half: TestRunner::{build, build_internal}, TestContext::rebuild, app::copy_app and util::run_command "
